@@ -7,6 +7,7 @@ package c11
 import (
 	"fmt"
 	"reflect"
+	"time"
 	"unsafe"
 
 	appserver "tunnox-core/internal/app/server"
@@ -57,4 +58,26 @@ func installProductionCommandWiring(sm *session.SessionManager, connCode *servic
 		return nil, fmt.Errorf("registry is %T", wr.GetRegistry())
 	}
 	return reg, nil
+}
+
+
+// setCommandTimeout shortens the executor's RPC time-out (30 s in production; the value lives in the
+// executor's unexported rpcManager, whose SetTimeout is exported).
+func setCommandTimeout(sm *session.SessionManager, d time.Duration) (err error) {
+	defer func() {
+		if r := recover(); r != nil {
+			err = fmt.Errorf("executor time-out not reachable (executor layout changed?): %v", r)
+		}
+	}()
+	ex, ok := sm.GetCommandExecutor().(*command.CommandExecutor)
+	if !ok {
+		return fmt.Errorf("executor is %T", sm.GetCommandExecutor())
+	}
+	f := reflect.ValueOf(ex).Elem().FieldByName("rpcManager")
+	if !f.IsValid() {
+		return fmt.Errorf("no field rpcManager")
+	}
+	rm := reflect.NewAt(f.Type(), unsafe.Pointer(f.UnsafeAddr())).Elem().Interface().(*command.RPCManager)
+	rm.SetTimeout(d)
+	return nil
 }
